@@ -21,6 +21,9 @@ package gen
 //@   requires n.Div <= 10000000000000000000
 //@   modifies n.BigBuf, heap(n.BigBuf)
 //@   ensures [C02] len(n.BigBuf) > old(len(n.BigBuf))
+// The text form has every digit of the accumulators: sign, the digits of I, and for a number with k fraction digits
+// (Div == 10^k) a point and exactly k digits, zeros included (strconv.FormatUint assumed to write Digits10 digits).
+//@   ensures [C02 text] spec.Pow10OK(n.Div) && n.Frac < n.Div && n.Exp == 0 ==> len(n.BigBuf) == old(len(n.BigBuf)) + (if n.Neg then 1 else 0) + spec.Digits10(n.I) + (if 1 < n.Div then spec.Digits10(n.Div) else 0)
 //@   ensures [C07 own] arrid(n.BigBuf) == old(arrid(n.BigBuf)) || fresh(n.BigBuf)
 
 //@ func (*Number).AddDigit
